@@ -1,13 +1,395 @@
-/- C05 — first layer; see DESIGN.md §5 -/
-import UBidi.Model.Reorder
-import UBidi.Spec.UAX9
-import UBidi.Spec.Reorder
-namespace UBidi.Props.C05
-open UBidi
+/-
+  C05 — `visual_runs` partitions the line into level runs in L2 visual order.
 
-/-- the analysis of the empty text is empty and does not fail -/
-theorem empty_text (ds : DataSource) (d : Option Nat) :
-    (bidiInfo ds (Text.ofScalars []) d).levels = [] ∧ (bidiInfo ds (Text.ofScalars []) d).err = none := by
-  constructor <;> rfl
+  `visualRunsForLine levels a b` (Model/Reorder.lean) transcribes `visual_runs_for_line`
+  (lib.rs) AND `deprecated::visual_runs` (deprecated.rs): the two Rust copies are the same
+  algorithm and are modelled by this ONE function, so "the deprecated free function returns the
+  same runs" holds by construction in the Model (the harness compares the outputs of the two Rust
+  functions with the Model's output separately); it is not a Lean theorem.
+
+  For every line `[a, b)` of a level vector `lv` (`a < b ≤ lv.length`, all levels ≤ 126):
+    * `C05_no_panic`  — no panic site is reached;
+    * `C05_partition` — the returned runs are non-empty and are a permutation of the logical level
+                        runs; the logical level runs tile `[a, b)` (consecutive, non-empty,
+                        disjoint, covering), each has one level, and each is maximal;
+    * `C05_order`     — listing the runs in the returned order and reversing the code units of
+                        each odd-level run gives exactly rule L2's order (`Spec.l2`) of the line.
+-/
+import UBidi.Model.Reorder
+import UBidi.Spec.Reorder
+import UBidi.Lemmas.C05Spec
+namespace UBidi.Props.C05
+open UBidi UBidi.Lemmas.C05
+
+/-! ## Definitions used in the statements -/
+
+/-- visual order of code units described by runs: odd-level runs reversed -/
+def runsOrder (lv : List Nat) (runs : List (Nat × Nat)) : List Nat :=
+  runs.flatMap (fun r => let idx := List.range' r.1 (r.2 - r.1); if (lv.getD r.1 0) % 2 == 1 then idx.reverse else idx)
+
+/-- the level runs of the line `[a, b)` in logical order (the first loop of `visual_runs_for_line`) -/
+def logicalRuns (lv : List Nat) (a b : Nat) : List (Nat × Nat) :=
+  findRuns a (lv.getD a 0) (a + 1) b (slice lv (a + 1) b)
+
+/-- `runs` are consecutive non-empty half-open intervals that start at `s` and end at `e`
+    (hence pairwise disjoint, sorted, and covering exactly `[s, e)`) -/
+def tiles : Nat → List (Nat × Nat) → Nat → Prop
+  | s, [], e => s = e
+  | s, r :: rs, e => r.1 = s ∧ r.1 < r.2 ∧ tiles r.2 rs e
+
+/-- every code unit of the run has the level of the run's first unit -/
+def oneLevel (lv : List Nat) (r : Nat × Nat) : Prop :=
+  ∀ i, r.1 ≤ i → i < r.2 → lv[i]? = lv[r.1]?
+
+/-- the run cannot be extended inside the line `[a, b)`: the unit before it (if it is in the line)
+    and the unit after it (if it is in the line) have a different level -/
+def maximalIn (lv : List Nat) (a b : Nat) (r : Nat × Nat) : Prop :=
+  (a < r.1 → lv[r.1 - 1]? ≠ lv[r.1]?) ∧ (r.2 < b → lv[r.2]? ≠ lv[r.1]?)
+
+/-! ## Run detection -/
+
+theorem tiles_bounds : ∀ (R : List (Nat × Nat)) (s e : Nat), tiles s R e →
+    s ≤ e ∧ ∀ r ∈ R, s ≤ r.1 ∧ r.1 < r.2 ∧ r.2 ≤ e := by
+  intro R
+  induction R with
+  | nil => intro s e h; simp only [tiles] at h; simp [h]
+  | cons r rs ih =>
+    intro s e h
+    simp only [tiles] at h
+    obtain ⟨h1, h2, h3⟩ := h
+    have := ih r.2 e h3
+    refine ⟨by omega, ?_⟩
+    intro x hx
+    rcases List.mem_cons.1 hx with rfl | hx
+    · omega
+    · have := this.2 x hx; omega
+
+theorem tiles_units : ∀ (R : List (Nat × Nat)) (s e : Nat), tiles s R e →
+    R.flatMap units = List.range' s (e - s) := by
+  intro R
+  induction R with
+  | nil => intro s e h; simp only [tiles] at h; simp [h]
+  | cons r rs ih =>
+    intro s e h
+    have hb := (tiles_bounds _ _ _ h).2 r (by simp)
+    simp only [tiles] at h
+    obtain ⟨h1, h2, h3⟩ := h
+    rw [List.flatMap_cons, ih r.2 e h3, units, h1]
+    have e1 : r.2 = s + (r.2 - s) := by omega
+    have e2 : e - s = (r.2 - s) + (e - r.2) := by omega
+    rw [e2]
+    conv => lhs; rhs; rw [e1]
+    have e3 : e - (s + (r.2 - s)) = e - r.2 := by omega
+    rw [e3]
+    exact List.range'_append_1
+
+/-- what `findRuns` returns when the units `[start, i)` seen so far all have level `rl` -/
+theorem findRuns_spec (lv : List Nat) (stop : Nat) :
+    ∀ (ls : List Nat) (start rl i : Nat), start < i → i + ls.length = stop →
+    (∀ k, k < ls.length → lv[i + k]? = ls[k]?) →
+    (∀ j, start ≤ j → j < i → lv[j]? = some rl) →
+    tiles start (findRuns start rl i stop ls) stop ∧
+    (∀ r ∈ findRuns start rl i stop ls, oneLevel lv r) ∧
+    (∀ r ∈ findRuns start rl i stop ls,
+      (r.1 ≠ start → lv[r.1 - 1]? ≠ lv[r.1]?) ∧ (r.2 ≠ stop → lv[r.2]? ≠ lv[r.1]?)) := by
+  intro ls
+  induction ls with
+  | nil =>
+    intro start rl i hsi hstop _ hconst
+    simp only [List.length_nil, Nat.add_zero] at hstop
+    subst hstop
+    simp only [findRuns, tiles, List.mem_singleton, forall_eq, true_and, ne_eq, not_true_eq_false,
+      false_implies, and_self, and_true]
+    refine ⟨hsi, ?_⟩
+    intro j h1 h2
+    rw [hconst j h1 h2, hconst start (Nat.le_refl _) hsi]
+  | cons l ls ih =>
+    intro start rl i hsi hstop hls hconst
+    have hli : lv[i]? = some l := by simpa using hls 0 (by simp)
+    have hls' : ∀ k, k < ls.length → lv[i + 1 + k]? = ls[k]? := by
+      intro k hk
+      have := hls (k + 1) (by simp; omega)
+      simpa [Nat.add_assoc, Nat.add_comm 1 k] using this
+    have hstop' : i + 1 + ls.length = stop := by simp at hstop; omega
+    unfold findRuns
+    by_cases hne : l = rl
+    · subst hne
+      simp only [bne_self_eq_false, Bool.false_eq_true, if_false]
+      exact ih start l (i + 1) (by omega) hstop' hls' (by
+        intro j h1 h2
+        by_cases hj : j < i
+        · exact hconst j h1 hj
+        · have : j = i := by omega
+          rw [this, hli])
+    · have hb : (l != rl) = true := by simpa using hne
+      simp only [hb, if_true]
+      obtain ⟨t1, t2, t3⟩ := ih i l (i + 1) (by omega) hstop' hls' (by
+        intro j h1 h2
+        have : j = i := by omega
+        rw [this, hli])
+      have hstart : lv[start]? = some rl := hconst start (Nat.le_refl _) hsi
+      refine ⟨?_, ?_, ?_⟩
+      · simp only [tiles]; exact ⟨trivial, hsi, t1⟩
+      · intro r hr
+        rcases List.mem_cons.1 hr with rfl | hr
+        · intro j h1 h2
+          rw [hconst j h1 h2, hstart]
+        · exact t2 r hr
+      · intro r hr
+        rcases List.mem_cons.1 hr with rfl | hr
+        · refine ⟨fun h => absurd rfl h, fun _ => ?_⟩
+          simp only [hli, hstart]
+          intro h; exact hne (Option.some.inj h)
+        · refine ⟨fun _ => ?_, (t3 r hr).2⟩
+          by_cases hri : r.1 = i
+          · rw [hri, hli, hconst (i - 1) (by omega) (by omega)]
+            intro h; exact hne (Option.some.inj h).symm
+          · exact (t3 r hr).1 hri
+
+theorem slice_length (lv : List Nat) (a b : Nat) (hb : b ≤ lv.length) :
+    (slice lv a b).length = b - a := by
+  simp [slice]; omega
+
+theorem slice_getElem? (lv : List Nat) (a b k : Nat) (hk : k < b - a) :
+    (slice lv a b)[k]? = lv[a + k]? := by
+  simp [slice, hk]
+
+/-- the logical runs tile the line, are single-level and maximal -/
+theorem logicalRuns_spec (lv : List Nat) (a b : Nat) (hab : a < b) (hb : b ≤ lv.length) :
+    tiles a (logicalRuns lv a b) b ∧ (∀ r ∈ logicalRuns lv a b, oneLevel lv r) ∧
+    (∀ r ∈ logicalRuns lv a b, maximalIn lv a b r) := by
+  have hlen := slice_length lv (a + 1) b hb
+  obtain ⟨t1, t2, t3⟩ := findRuns_spec lv b (slice lv (a + 1) b) a (lv.getD a 0) (a + 1) (by omega)
+    (by rw [hlen]; omega)
+    (by intro k hk; rw [hlen] at hk; rw [slice_getElem? lv (a + 1) b k hk])
+    (by
+      intro j h1 h2
+      have : j = a := by omega
+      subst this
+      have : j < lv.length := by omega
+      simp [List.getD_eq_getElem?_getD, this])
+  refine ⟨t1, t2, ?_⟩
+  intro r hr
+  have hbd := (tiles_bounds _ _ _ t1).2 r hr
+  exact ⟨fun h => (t3 r hr).1 (by omega), fun h => (t3 r hr).2 (by omega)⟩
+
+/-! ## The loop: permutation, no panic -/
+
+theorem passes_perm (lev : Nat × Nat → Nat) (hi : Nat) (R0 : List (Nat × Nat)) (n : Nat) :
+    ((List.range n).foldl (fun R d => passR lev (hi - d) R) R0).Perm R0 := by
+  induction n with
+  | zero => exact List.Perm.refl _
+  | succ n ih =>
+    simp only [List.range_succ, List.foldl_append, List.foldl_cons, List.foldl_nil]
+    have := revG_perm (fun r => decide (lev r ≥ hi - n)) []
+      ((List.range n).foldl (fun R d => passR lev (hi - d) R) R0)
+    simp only [List.nil_append] at this
+    exact this.trans ih
+
+/-- `visualRunsForLine` in closed form: the passes for the levels `hi, hi-1, …, m` applied to the
+    logical runs, where `hi` is the highest level of the line and `m` is odd, `1 ≤ m ≤ hi + 1`,
+    and no odd level of the line is below `m` -/
+theorem visualRuns_closed (lv : List Nat) (a b : Nat) (hab : a < b) (hb : b ≤ lv.length)
+    (h126 : ∀ l ∈ lv, l ≤ 126) :
+    ∃ m, m % 2 = 1 ∧ m ≤ (slice lv a b).foldl max 0 + 1 ∧
+      (∀ l ∈ slice lv a b, l % 2 = 1 → m ≤ l) ∧
+      visualRunsForLine lv a b =
+        ((List.range ((slice lv a b).foldl max 0 + 1 - m)).foldl
+          (fun R d => passR (fun r => lv.getD r.1 0) ((slice lv a b).foldl max 0 - d) R)
+          (logicalRuns lv a b), none) := by
+  have ha : a < lv.length := by omega
+  have hl0 : lv[a]? = some lv[a] := by simp [ha]
+  have hgetD : lv.getD a 0 = lv[a] := by simp [List.getD_eq_getElem?_getD, ha]
+  have hmemL : lv[a] ∈ slice lv a b := by
+    have := slice_getElem? lv a b 0 (by omega)
+    simp only [Nat.add_zero, hl0] at this
+    exact List.mem_of_getElem? this
+  have hsub : ∀ l ∈ slice lv a b, l ∈ lv := by
+    intro l hl
+    unfold slice at hl
+    exact List.mem_of_mem_drop (List.mem_of_mem_take hl)
+  have hmax : (slice lv a b).foldl max lv[a] = (slice lv a b).foldl max 0 :=
+    foldl_max_start _ _ hmemL
+  have hmin1 := foldl_min_le (slice lv a b) lv[a]
+  have hmin2 := foldl_min_mem (slice lv a b) lv[a]
+  have hminL : (slice lv a b).foldl min lv[a] ∈ slice lv a b := by
+    rcases List.mem_cons.1 hmin2 with h | h
+    · rw [h]; exact hmemL
+    · exact h
+  have hmaxge := (foldl_max_ge (slice lv a b) 0).2
+  unfold visualRunsForLine
+  simp only [hl0]
+  rw [hmax]
+  generalize hmn : (slice lv a b).foldl min lv[a] = mn at hmin1 hminL
+  generalize hhi : (slice lv a b).foldl max 0 = hi at hmaxge
+  have hmn126 : mn ≤ 126 := h126 mn (hsub mn hminL)
+  have hhi126 : hi ≤ 126 := by
+    have := foldl_max_mem (slice lv a b) 0
+    rw [hhi] at this
+    rcases List.mem_cons.1 this with h | h
+    · omega
+    · exact h126 hi (hsub hi h)
+  cases hnl : Level.newLowestGeRtl mn with
+  | none =>
+    have hmn' : mn = 126 := (UBidi.Props.C19.newLowestGeRtl_fails_iff mn hmn126).1 hnl
+    have hall : ∀ l ∈ slice lv a b, l = 126 := by
+      intro l hl
+      have := hmin1.2 l hl
+      have := h126 l (hsub l hl)
+      omega
+    have hhi' : hi = 126 := by
+      have := hmaxge mn hminL; omega
+    refine ⟨127, by omega, by omega, ?_, ?_⟩
+    · intro l hl h1; have := hall l hl; omega
+    · have : hi + 1 - 127 = 0 := by omega
+      simp only [this, List.range_zero, List.foldl_nil, logicalRuns, hgetD]
+  | some m =>
+    obtain ⟨m1, m2, m3, m4⟩ := UBidi.Props.C19.newLowestGeRtl_some mn m hnl
+    have hmle : m ≤ hi + 1 := by
+      have h1 := hmaxge mn hminL
+      by_cases hp : mn % 2 = 1
+      · have := m4 mn (Nat.le_refl _) hp; omega
+      · have := m4 (mn + 1) (by omega) (by omega); omega
+    refine ⟨m, m1, hmle, ?_, ?_⟩
+    · intro l hl h1
+      exact m4 l (hmin1.2 l hl) h1
+    · simp only []
+      rw [l2RunsLoop_eq lv m (by omega) (hi + 1) hi rfl]
+      simp only [logicalRuns, hgetD]
+
+/-- at the end of the loop (level `m`, odd, no odd level below it) a run has been flipped an odd
+    number of times exactly when its level is odd -/
+theorem flag_parity (m l : Nat) (hm : m % 2 = 1) (hodd : l % 2 = 1 → m ≤ l) :
+    decide (m ≤ l ∧ (l - m) % 2 = 0) = (l % 2 == 1) := by
+  by_cases hp : l % 2 = 1
+  · have := hodd hp
+    have h2 : (l - m) % 2 = 0 := by omega
+    simp [hp, this, h2]
+  · have : ¬ (m ≤ l ∧ (l - m) % 2 = 0) := by omega
+    simp [hp, this]
+
+/-! ## The three theorems -/
+
+theorem C05_no_panic (lv : List Nat) (a b : Nat) (hab : a < b) (hb : b ≤ lv.length)
+    (h126 : ∀ l ∈ lv, l ≤ 126) : (visualRunsForLine lv a b).2 = none := by
+  obtain ⟨m, _, _, _, h⟩ := visualRuns_closed lv a b hab hb h126
+  rw [h]
+
+/-- The returned runs are non-empty and are, up to order, exactly the logical level runs; and the
+    logical level runs tile `[a, b)`, are single-level, and are maximal.  (Together: the returned
+    runs are non-empty, pairwise disjoint, cover the line exactly, are each of one level and
+    maximal.) -/
+theorem C05_partition (lv : List Nat) (a b : Nat) (hab : a < b) (hb : b ≤ lv.length)
+    (h126 : ∀ l ∈ lv, l ≤ 126) :
+    let runs := (visualRunsForLine lv a b).1
+    let lr := logicalRuns lv a b
+    (∀ r ∈ runs, r.1 < r.2) ∧ runs.Perm lr ∧
+    tiles a lr b ∧ (∀ r ∈ lr, oneLevel lv r) ∧ (∀ r ∈ lr, maximalIn lv a b r) := by
+  intro runs lr
+  obtain ⟨m, _, _, _, h⟩ := visualRuns_closed lv a b hab hb h126
+  obtain ⟨t1, t2, t3⟩ := logicalRuns_spec lv a b hab hb
+  have hperm : runs.Perm lr := by
+    show (visualRunsForLine lv a b).1.Perm _
+    rw [h]
+    exact passes_perm _ _ _ _
+  refine ⟨?_, hperm, t1, t2, t3⟩
+  intro r hr
+  exact ((tiles_bounds _ _ _ t1).2 r (hperm.subset hr)).2.1
+
+/-- consequence of `C05_partition` in elementary terms: every code unit of the line lies in
+    exactly one returned run (as a position of the list of runs) -/
+theorem C05_cover (lv : List Nat) (a b : Nat) (hab : a < b) (hb : b ≤ lv.length)
+    (h126 : ∀ l ∈ lv, l ≤ 126) :
+    ((visualRunsForLine lv a b).1.flatMap units).Perm (List.range' a (b - a)) := by
+  obtain ⟨_, hperm, t1, _, _⟩ := C05_partition lv a b hab hb h126
+  rw [← tiles_units _ _ _ t1]
+  exact List.Perm.flatMap_right _ hperm
+
+/-- L2: the order described by the runs is the Spec's L2 order of the line's levels -/
+theorem C05_order (lv : List Nat) (a b : Nat) (hab : a < b) (hb : b ≤ lv.length)
+    (h126 : ∀ l ∈ lv, l ≤ 126) :
+    runsOrder lv (visualRunsForLine lv a b).1 = (Spec.l2 (slice lv a b)).map (· + a) := by
+  obtain ⟨m, hm1, hm2, hm3, h⟩ := visualRuns_closed lv a b hab hb h126
+  obtain ⟨t1, t2, _⟩ := logicalRuns_spec lv a b hab hb
+  have hbd := (tiles_bounds _ _ _ t1).2
+  rw [h]
+  generalize hL : slice lv a b = L at *
+  generalize hhi : L.foldl max 0 = hi at *
+  have hLlen : L.length = b - a := by rw [← hL]; exact slice_length lv a b hb
+  -- level of a unit of the line
+  have hunit : ∀ u, a ≤ u → u < b → unitLevel L a u = lv.getD u 0 := by
+    intro u h1 h2
+    have := slice_getElem? lv a b (u - a) (by omega)
+    rw [hL] at this
+    have e : a + (u - a) = u := by omega
+    simp only [unitLevel, List.getD_eq_getElem?_getD, this, e]
+  have hlevmem : ∀ r ∈ logicalRuns lv a b, lv.getD r.1 0 ∈ L := by
+    intro r hr
+    have hb' := hbd r hr
+    have := slice_getElem? lv a b (r.1 - a) (by omega)
+    rw [hL] at this
+    have e : a + (r.1 - a) = r.1 := by omega
+    have hlt : r.1 < lv.length := by omega
+    rw [e] at this
+    simp only [List.getD_eq_getElem?_getD, hlt, List.getElem?_eq_getElem, Option.getD_some] at this ⊢
+    exact List.mem_of_getElem? this
+  have hmaxge : ∀ l ∈ L, l ≤ hi := by
+    have := (foldl_max_ge L 0).2
+    rw [hhi] at this; exact this
+  have hinv := foldInv (unitLevel L a) (fun r => lv.getD r.1 0) hi (logicalRuns lv a b)
+    (fun r hr => by
+      have := hbd r hr
+      simp [units]; omega)
+    (fun r hr u hu => by
+      have hb' := hbd r hr
+      simp only [units, List.mem_range'_1] at hu
+      rw [hunit u (by omega) (by omega)]
+      have := t2 r hr u (by omega) (by omega)
+      simp only [List.getD_eq_getElem?_getD, this])
+    (fun r hr => hmaxge _ (hlevmem r hr))
+    (hi + 1 - m) (by omega)
+  obtain ⟨hperm, heq⟩ := hinv
+  have hspec := spec_l2_shift L a m hm1 (by rw [hhi]; exact hm2) hm3
+  rw [hhi, hLlen, ← tiles_units _ _ _ t1, heq] at hspec
+  rw [hspec]
+  have hk : hi + 1 - (hi + 1 - m) = m := by omega
+  rw [hk]
+  unfold runsOrder
+  apply flatMap_congr'
+  intro r hr
+  have hr' := hperm.subset hr
+  have hmem := hlevmem r hr'
+  have hodd := hm3 _ hmem
+  have hfl : flag (fun r => lv.getD r.1 0) m r = (lv.getD r.1 0 % 2 == 1) := by
+    unfold flag; exact flag_parity m _ hm1 hodd
+  unfold render
+  rw [hfl]
+  rfl
+
+/-! ## Non-vacuity and tests (the `decide`s below are tests on literals, not proofs of the property) -/
+
+/-- non-vacuity: a mixed line inside a longer level vector meets the hypotheses -/
+example : (2 < 10) ∧ (10 ≤ [0, 0, 0, 0, 1, 1, 2, 2, 1, 0, 0].length) ∧
+    (∀ l ∈ [0, 0, 0, 0, 1, 1, 2, 2, 1, 0, 0], l ≤ 126) := by decide
+
+/-- test: the runs and the order for that line -/
+example : visualRunsForLine [0, 0, 0, 0, 1, 1, 2, 2, 1, 0, 0] 2 10
+      = ([(2, 4), (8, 9), (6, 8), (4, 6), (9, 10)], none) ∧
+    logicalRuns [0, 0, 0, 0, 1, 1, 2, 2, 1, 0, 0] 2 10 = [(2, 4), (4, 6), (6, 8), (8, 9), (9, 10)] ∧
+    runsOrder [0, 0, 0, 0, 1, 1, 2, 2, 1, 0, 0] [(2, 4), (8, 9), (6, 8), (4, 6), (9, 10)]
+      = [2, 3, 8, 6, 7, 5, 4, 9] ∧
+    (Spec.l2 [0, 0, 1, 1, 2, 2, 1, 0]).map (· + 2) = [2, 3, 8, 6, 7, 5, 4, 9] := by decide
+
+/-- test: lowest level even and the lowest odd level at or above it absent (the extra passes cancel),
+    and the all-126 line (the `None` branch of `new_lowest_ge_rtl`) -/
+example : visualRunsForLine [4, 5, 2] 0 3 = ([(0, 1), (1, 2), (2, 3)], none) ∧
+    visualRunsForLine [2, 4, 4, 6, 2] 0 5 = ([(0, 1), (1, 3), (3, 4), (4, 5)], none) ∧
+    visualRunsForLine [126, 126] 0 2 = ([(0, 2)], none) := by decide
+
+/-- the predicates of `C05_partition` are not trivially true: they reject a wrong run list -/
+example : ¬ tiles 0 [(0, 2), (3, 4)] 4 ∧ ¬ oneLevel [0, 1] (0, 2) ∧ ¬ maximalIn [1, 1] 0 2 (0, 1) := by
+  refine ⟨by simp [tiles], ?_, ?_⟩
+  · intro h; have := h 1 (by decide) (by decide); simp at this
+  · intro h; exact h.2 (by decide) (by decide)
 
 end UBidi.Props.C05
